@@ -146,7 +146,16 @@ def ssc_simfile_table(ctx: Ctx, raw_key_ok: bool = False, relaxed: bool = False)
     pcs = {e.target.id for sm in sums for e in sm.effects if e.kind == "bind" and isinstance(e.target, ast.Name) and e.value is not None and ast.unparse(e.value) == "SSCChart()"}
     require(len(pcs) == 1, f"{fi.fq}: expected one local holding the chart being filled (bound to SSCChart()), found {sorted(pcs)}")
     pc = next(iter(pcs))
-    ND, PCN, MULTI, VNONE = f"{K} == 'NOTEDATA'", f"{pc} is None", f"{K} in {_multi(ctx)}", f"{P}.value is None"
+    # how "no chart is open" is represented: the value the local holds when the loop starts - None, or the simfile itself (then a store
+    # through the local *is* a store into the simfile)
+    inits = set()
+    for sm in sums:
+        idx0 = next((i for i, e in enumerate(sm.effects) if e.kind == "for" and e.line == line), None)
+        if idx0 is not None:
+            r0 = sm.resolve(pc, idx0)
+            inits.add(ast.unparse(r0[1].value) if r0 is not None and r0[1].value is not None else "<unbound>")
+    init = next(iter(inits)) if len(inits) == 1 and next(iter(inits)) in ("None", s) else "None"
+    ND, PCN, MULTI, VNONE = f"{K} == 'NOTEDATA'", f"{pc} is {init}", f"{K} in {_multi(ctx)}", f"{P}.value is None"
     d = p.descriptors(p.cls("simfile.ssc.SSCChart"))["notes"]
     keyset = tuple(sorted({d.key, d.alias} - {None}))
     NK = f"{K} in {keyset!r}"
@@ -154,17 +163,24 @@ def ssc_simfile_table(ctx: Ctx, raw_key_ok: bool = False, relaxed: bool = False)
     def spec(a):
         if a[ND]:
             return (f"{pc} := SSCChart()",) if a[PCN] else (f"{s}.charts.append({pc})", f"{pc} := SSCChart()")
-        dest = s if a[PCN] else pc
-        return OneOf(*[(f"{dest}[{K}] = {v}",) for v in _value_spec(a, MULTI, VNONE, P)])
+        # while the local *is* the simfile, a store through either name is the same store
+        dests = ([s, pc] if init == s else [s]) if a[PCN] else [pc]
+        return OneOf(*[(f"{dest}[{K}] = {v}",) for dest in dests for v in _value_spec(a, MULTI, VNONE, P)])
+
+    import re as _re
 
     def post(dec: Dec) -> Dec:
-        if relaxed and dec.assign.get(NK_key) is True and len(dec.outcome) == 3 and dec.outcome[1:] == (f"{s}.charts.append({pc})", f"{pc} := None"):
+        if init == s and dec.assign.get(PCN_key) is True:
+            # the local is the simfile on this path
+            dec = Dec(dec.assign, tuple(_re.sub(rf"^{_re.escape(pc)}\[", f"{s}[", t) for t in dec.outcome), dec.src)
+        if relaxed and dec.assign.get(NK_key) is True and len(dec.outcome) == 3 and dec.outcome[1:] == (f"{s}.charts.append({pc})", f"{pc} := {init}"):
             # serialized charts end with their note data: closing the chart right after its notes item is equivalent on that text
             return Dec(dec.assign, dec.outcome[:1], dec.src)
         return dec
 
     from ..decide import key as ckey
     NK_key = ckey(NK)
+    PCN_key = ckey(PCN)
     decs = _loop_decs(sums, line, [s, pc], fix, post)
     ctx.floor("paths through the SSCSimfile._parse loop", len(decs), 6)
     judge(ctx, "R-TABLE", fi, "NOTEDATA closes the open chart and opens a new one; any other parameter goes to the open chart, or to the simfile while none is open", decs,
@@ -181,11 +197,11 @@ def ssc_simfile_table(ctx: Ctx, raw_key_ok: bool = False, relaxed: bool = False)
                 zero_ok = False
             continue
         r = sm.resolve(pc, idx)
-        if r is None or r[1].value is None or ast.unparse(r[1].value) != "None":
+        if r is None or r[1].value is None or ast.unparse(r[1].value) != init:
             pre_ok = False
         after = tuple(e.text for e in sm.effects[idx + 1:] if not e.loops and touches(e, [s, pc]))
         post_decs.append(Dec(sm.atoms_between(idx + 1, len(sm.effects), outside=line), after, sm))
-    ctx.expect("R-ORDER", fi, "no chart is open before the first NOTEDATA", pre_ok, "", f"{pc} is not None when the parameter loop starts", node=fi.node)
+    ctx.expect("R-ORDER", fi, "no chart is open before the first NOTEDATA", pre_ok, "", f"{pc} does not hold the 'no chart open' marker ({init}) on every path when the parameter loop starts", node=fi.node)
     ctx.expect("R-ORDER", fi, "an empty parameter stream appends no chart", zero_ok, "", "", node=fi.node)
     judge(ctx, "R-ORDER", fi, "the last open chart is appended after the loop", post_decs, [PCN], lambda a: () if a[PCN] else (f"{s}.charts.append({pc})",),
           why="the final chart of the file would be lost (or an absent one appended)")
